@@ -240,10 +240,39 @@ def _pair_rest(repo, col, R):
     col.check(ok, R, fi, "record de-duplicates on whole rows (rec_index, state)", "", "recordings are not de-duplicated", node=fi.node)
     fi = repo.method("Network", "_append_multiple_synapses")
     ex = idx.expander(repo, fi)
-    src = unparse(fi.node)
-    ok = "index = len(self.base.edges)" in src and "range(index, index + len(pre_nodes))" in src
-    col.check(ok, R, fi, "new edges continue the contiguous global edge numbering", "range(len(edges), len(edges) + n)",
-              "global_edge_index of new edges does not continue the numbering", node=fi.node)
+    # global_edge_index of the new rows = len(existing edges) .. len(existing edges) + number of new rows
+    from sa.termalg import term_rat
+    from sa.algebra import Rat, Und
+    rng = None
+    for t_ in [s_.value for s_ in ex.stores if s_.value is not None] + list(ex.returns):
+        for x in t_.walk():
+            if x.op == "kv" and x.args[0].op == "const" and x.args[0].name == "global_edge_index":
+                rng = rng or T.find(x.args[1], lambda y: y.op == "call" and y.name == "range" and len(y.args) == 2)
+    if rng is None:
+        for t_ in [s_.value for s_ in ex.stores if s_.value is not None]:
+            rng = rng or T.find(t_, lambda y: y.op == "call" and y.name == "range" and len(y.args) == 2 and
+                                T.find(y, lambda z: z.op == "attr" and z.name == "edges") is not None)
+    if rng is None:
+        col.unk(R, fi, "new edges continue the contiguous global edge numbering", "range of new edge indices not found", node=fi.node)
+    else:
+        def leaf(x):
+            if x.op == "call" and x.name == "len" and len(x.args) == 1:
+                a_ = x.args[0]
+                if a_.op == "attr" and a_.name == "edges" and T.find(a_, lambda z: z.op == "attr" and z.name == "base") is not None:
+                    return Rat.atom("n_edges")
+                if a_.op == "param":
+                    return Rat.atom("n_new:" + a_.name)
+            return None
+        try:
+            lo, hi = term_rat(rng.args[0], leaf), term_rat(rng.args[1], leaf)
+            newcount = hi - lo
+            ok = lo.eq(Rat.atom("n_edges")) and len(newcount.atoms()) == 1 and next(iter(newcount.atoms())).startswith("n_new:") and \
+                newcount.eq(Rat.atom(next(iter(newcount.atoms()))))
+            col.check(ok, R, fi, "new edges continue the contiguous global edge numbering", "range(len(edges), len(edges) + n)",
+                      f"global_edge_index of new edges is range({lo}, {hi}): it must start at the current number of edges and have one entry "
+                      f"per new row", node=rng.node or fi.node)
+        except Und as e:
+            col.unk(R, fi, "new edges continue the contiguous global edge numbering", str(e), node=fi.node)
 
 
 def _reg_name(t: T):
